@@ -355,4 +355,36 @@ Proof.
   intros q Hq. eapply map_inl_all; [exact O|lia].
 Qed.
 
+(* ---- C09: State::Error is final ----
+   Once the coordinator is in State::Error (a worker error or a source error was returned to the
+   caller, or the source failed / the input was empty: the CSetErr step), it stays there, and the
+   success-end value is never returned afterwards: every later call returns data that was already
+   complete and in order (C08), or Err. *)
+Theorem mt_error_sticky c src p s t s' :
+  Fx c -> reachable f c src p s -> ph s = PErr -> step f c s t = Some s' ->
+  ph s' = PErr /\ results s' <> results s ++ [RNone].
+Proof.
+  intros Hfx Hr Hp Hst.
+  pose proof (inv_ctl f c src p s Hfx Hr) as OK. destruct Hfx as (Fc & Fw & Fe & Ff).
+  assert (Hne : forall (l : list (cres R)) x, l <> l ++ [x]).
+  { intros l x E. apply (f_equal (@length _)) in E. rewrite app_length in E. simpl in E. lia. }
+  step_split t Hst; rw_pc; try (split; [assumption|apply Hne]); try (split; [reflexivity|apply Hne]).
+  all: try rewrite Hp in *; try discriminate.
+  all: unfold disp_eff in *;
+       unfold ret_eff, src_eff, finish_eff, flush_eff, with_out, goto, creturn, freturn, dk_is_finish, blocking_of in *;
+       rewrite ?Fc, ?Fw, ?Fe, ?Ff in *;
+       unfold ctl_ok, quiet_pc, kind_ok, dk_chain, gk_of, is_run, is_perr, is_reader in OK;
+       cbn [e_pc e_ph e_out e_res e_fin e_last andb] in *.
+  all: repeat match goal with
+              | g : gk |- _ => destruct g
+              | d : dk |- _ => destruct d
+              | r : src_res |- _ => destruct r
+              | |- context [if ?b then _ else _] => destruct b eqn:?
+              | H : context [match k_kind ?c with _ => _ end] |- _ => destruct (k_kind c) eqn:?
+              end; cbn [e_pc e_ph e_out e_res e_fin e_last andb] in *; try discriminate.
+  all: try (split; [try reflexivity; try assumption|]).
+  all: try (rewrite ?app_nil_r; apply Hne).
+  all: try (intros E; apply app_inv_head in E; discriminate).
+Qed.
+
 End P.
